@@ -202,8 +202,11 @@ def check_state(run, A):
             for e2 in g.events:
                 if e2.kind == 'assert' and e2.term is not None:
                     for t in walk_terms(e2.term, into_mu=False):
-                        if t.op == 'cmp' and t.args[0] == 'Eq' and any(x.op == 'attr' and x.args[0] is selfp and x.args[1] == attr for x in t.args[1:]):
-                            if guard_tests_attr_is_none([(c, not p) for c, p in e2.guards], selfp, attr):
+                        if t.op == 'cmp' and t.args[0] == 'Eq' and any(x.op == 'attr' and x.args[0] is selfp and x.args[1] == attr
+                                                                       for a_ in t.args[1:] for x in walk_terms(a_, into_mu=False)):
+                            # asserted on the branch where the attribute was already set, or unconditionally after the lazy write
+                            if guard_tests_attr_is_none([(c, not p) for c, p in e2.guards], selfp, attr) or \
+                                    (e2.seq > e.seq and not any(any(x.op == 'attr' and x.args[0] is selfp and x.args[1] == attr for x in walk_terms(c, into_mu=False)) for c, _ in e2.guards)):
                                 has_assert = True
             lazily_set.setdefault((fn.cls.qual, attr), []).append(fn.qual)
             run.check(ok_guard and has_assert, 'R-STATE', f'{fn.qual} lazily sets self.{attr}', fn.loc(e.node),
